@@ -83,6 +83,17 @@ def run(ctx, R):
     R.ob("C48:directory_files:no-entry-is-skipped", not skipped and n_cont >= 1,
          "Machine::directory_files continues with the next directory entry (line %s) without having pushed the current one: the list delivered is shorter than what the operating "
          "system lists" % skipped, F.where(df))
+    # file_copy/2 onto the same file: std::fs::copy opens the destination for writing (truncating it) before it reads the
+    # source, so the copy is made only where source and destination have been compared
+    fc = [p for p in F.items if re.search(r"system_calls::<impl machine::Machine>::file_copy$", p)][0]
+    fb = F.hir(fc)["body"]
+    copies = [x for x in walk(fb) if x["k"] == "Call" and re.search(r"fs::copy$", x.get("resolved") or x.get("callee") or "")]
+    if len(copies) != 1:
+        raise AnchorLost("Machine::file_copy: call of fs::copy (%d)" % len(copies))
+    canon = [x for x in walk(fb) if x["k"] == "Call" and re.search(r"fs::canonicalize$", x.get("resolved") or x.get("callee") or "")]
+    compared = any(x["k"] == "Binary" and x["op"] == "Eq" and x["ln"] < copies[0]["ln"] for x in walk(fb))
+    R.ob("C48:file_copy:source-and-destination-compared-before-the-copy", len(canon) >= 2 and compared and all(c["ln"] < copies[0]["ln"] for c in canon),
+         "Machine::file_copy calls fs::copy without having compared the canonical source and destination: file_copy(\"f\", \"f\") truncates f to 0 bytes", F.where(fc))
     text = open(os.path.join(REPO, "src/lib/files.pl")).read()
     clauses = {}
     for term, line in P.read_clauses(text):
